@@ -89,6 +89,29 @@ var c11ValidThenMalformed = [][]byte{
 	{0x30, 0x18, 0x30, 0x16, 0x04, 0x03, 0x00, 0x01, 0x01, 0x30, 0x0f, 0x03, 0x06, 0x00, 0x01, 0x02, 0x03, 0x04, 0x05, 0x03, 0x05, 0x00, 0xc6, 0x33, 0x64, 0x09},
 }
 
+// c11WrappedLengthExts: one IPv4 block whose bit length is a legal prefix
+// length only modulo 2^8 or 2^16 (256 bits, 256+16 with the peer's leading
+// octets, 65536, ...).  Oversized blocks are malformed whatever their
+// length is congruent to.
+func c11WrappedLengthExts() [][]byte {
+	type fam struct {
+		AddressFamily []byte
+		Addresses     []asn1.BitString
+	}
+	var out [][]byte
+	for _, base := range []int{256, 512, 768, 65536} {
+		for _, d := range []int{0, 8, 16, 24, 32} {
+			by := make([]byte, (base+d)/8)
+			copy(by, []byte{198, 51, 100, 9})
+			b, err := asn1.Marshal([]fam{{AddressFamily: []byte{0, 1, 1}, Addresses: []asn1.BitString{{Bytes: by, BitLength: base + d}}}})
+			if err == nil {
+				out = append(out, b)
+			}
+		}
+	}
+	return out
+}
+
 func TestVerifC11Http(t *testing.T) {
 	rep := newVerifReport("C11", "HTTP: automation certificates minted through the real admin route for seeded netblock lists (prefix 0..32) presented with real verified chains from boundary peers to the certificate, user-admin, mint and refresh routes; admitted <=> inside (uint32 oracle) and only on routes that take IP certificates; refresh output decoded (same CN, same netblocks); corrupted extensions never admit an outside peer; class = (route, prefix length, peer position, outcome)")
 	defer rep.Finish()
@@ -297,11 +320,13 @@ func TestVerifC11Http(t *testing.T) {
 		nCorrupt = 20000
 	}
 	good := verifIPExtension([]net.IPNet{mustCIDR("10.20.0.0/16")}).Value
+	fixedCorrupt := append(append([][]byte{}, c11ValidThenMalformed...), c11WrappedLengthExts()...)
+	nCorrupt += len(fixedCorrupt)
 	for i := 0; i < nCorrupt; i++ {
 		val := append([]byte{}, good...)
-		if i < len(c11ValidThenMalformed) {
-			// a block that contains the peer next to an oversized one: malformed as a whole
-			val = append([]byte{}, c11ValidThenMalformed[i]...)
+		if i < len(fixedCorrupt) {
+			// a block that contains the peer next to an oversized one, or an oversized block alone: malformed as a whole
+			val = append([]byte{}, fixedCorrupt[i]...)
 		} else if i%3 == 0 {
 			val = c10RandomIPExt(rng)
 		} else {
